@@ -206,6 +206,11 @@ fn main() {
                     v.extend_from_slice(&data);
                     run_bounded(|| Bounded::from_raw_parts(start, len, v), &ops)
                 }
+                // the safe constructors (the case's start/len describe what they must produce)
+                5 => run_bounded(|| data.iter().cloned().collect::<Bounded<Vec<i64>>>(), &ops), // FromIterator: empty
+                6 => run_bounded(|| Bounded::from_full(data.clone()), &ops),                    // full, start 0
+                7 => run_bounded(|| Bounded::from(data.clone().into_boxed_slice()), &ops),      // From: empty
+                8 => run_bounded(|| data.iter().cloned().collect::<Bounded<Box<[i64]>>>(), &ops),
                 _ => run_bounded(|| Bounded::from_raw_parts(start, len, data.clone()), &ops),
             }
         } else {
@@ -230,6 +235,9 @@ fn main() {
                     v.extend_from_slice(&data);
                     run_fixed(|| Fixed::from_raw_parts(first, v), &ops)
                 }
+                5 => run_fixed(|| data.iter().cloned().collect::<Fixed<Vec<i64>>>(), &ops), // FromIterator: first 0
+                6 => run_fixed(|| Fixed::from(data.clone()), &ops),                          // From: first 0
+                7 => run_fixed(|| Fixed::from(data.clone().into_boxed_slice()), &ops),
                 _ => run_fixed(|| Fixed::from_raw_parts(first, data.clone()), &ops),
             }
         };
